@@ -169,14 +169,26 @@ def derivations(ctx):
             # the previous error is called pid.err in every controller
             names = {k: (v if prefix or v != 'err' else 'pid.err') for k, v in names.items()}
             dom = WrapDom(names, inner)
-            it = symx.Interp(dom, lambda n: None)
+            mods = [ctx.module(unit)]
+            # local helpers (a shared prologue extracted into a static function) are followed; the step functions stay opaque
+
+            def lk(nm, mods=mods):
+                for m_ in mods:
+                    f_ = m_.functions.get(nm)
+                    if f_ is not None and not f_.error and nm not in inner:
+                        return f_
+                return None
+            it = symx.Interp(dom, lk)
             lv = it.run(fn, [Ptr('ctx', 0), dom.sym('set', real=True), dom.sym('fdb', real=True)])
             probs = []
             for lf in lv:
                 calls = [c for c in lf.calls if isinstance(c, tuple) and c[0] in inner]
                 if [c[0] for c in calls] != [n for n, _ in want]:
-                    probs.append('calls %s, expected %s' % ([c[0] for c in calls], [n for n, _ in want]))
-                    continue
+                    if sorted(c[0] for c in calls) == sorted(n for n, _ in want):
+                        probs.append('calls %s, expected the order %s (the gains must be scheduled before the step that uses them)' % ([c[0] for c in calls], [n for n, _ in want]))
+                        continue
+                    # built from other pieces (a step inlined by hand, a new helper): not comparable with the table, no verdict
+                    raise Unsupported('%s calls %s, the table expects %s' % (fname, [c[0] for c in calls], [n for n, _ in want]))
                 for (cn, ca), (_, wa) in zip(calls, want):
                     if len(ca) != len(wa):
                         probs.append('%s gets %d arguments' % (cn, len(ca)))
@@ -338,6 +350,49 @@ def truth3(pc, atoms):
     return val
 
 
+def _atom_of(c, atoms):
+    """(name, truth of the atom when c holds) for a comparison that is one of the atoms in some spelling"""
+    if not isinstance(c, alg.Cond) or c.kind != 'fcmp':
+        return None
+    rel = c.rel()
+    for nm, (l, r) in atoms.items():
+        if alg.is_zero(c.a - l) and alg.is_zero(c.b - r):
+            if rel == '<':
+                return (nm, True)
+            if rel == '>=':
+                return (nm, False)
+        elif alg.is_zero(c.a - r) and alg.is_zero(c.b - l):
+            if rel == '>':
+                return (nm, True)
+            if rel == '<=':
+                return (nm, False)
+    return None
+
+
+def decide_by_models(pc, atoms):
+    """value of (lo and hi) or dir when it is the same under every assignment of the atoms consistent with the path condition"""
+    import itertools
+
+    def ev(c, asg):
+        if isinstance(c, alg.BoolOp):
+            vals = [ev(x, asg) for x in c.args]
+            if c.op == 'and':
+                return all(vals)
+            if c.op == 'or':
+                return any(vals)
+            return True
+        a = _atom_of(c, atoms)
+        if a is None:
+            return True          # a condition about something else does not restrict the atoms
+        return asg[a[0]] == a[1]
+    seen = set()
+    for bits in itertools.product((False, True), repeat=3):
+        asg = dict(zip(('lo', 'hi', 'dir'), bits))
+        if all(ev(c, asg) for c in pc):
+            seen.add((asg['lo'] and asg['hi']) or asg['dir'])
+    return seen.pop() if len(seen) == 1 else None
+
+
 def flat_all(pc):
     for c in pc:
         if isinstance(c, alg.BoolOp):
@@ -383,6 +438,10 @@ def integrator(ctx, results):
                 return None
             return False
         want = or3(and3(A('lo'), A('hi')), A('dir'))
+        if want is None:
+            # the path condition may hold disjunctions (a || b merged into one test): decide by enumerating the truth values of the
+            # three atoms that are consistent with it
+            want = decide_by_models(lf.pc, atoms)
         if want is None:
             probs.append('path condition %s does not determine the integration condition' % (str(lf.pc)[:160]))
             continue
